@@ -39,6 +39,8 @@ def fold(n, env):
         v = fold(n.value, env)
         if isinstance(v, str) and n.attr in ("format", "join", "zfill", "rjust"):
             return getattr(v, n.attr)
+        if isinstance(v, (tuple, list)) and n.attr in ("count", "index"):
+            return getattr(v, n.attr)
         if isinstance(v, Stub) and n.attr in v.__dict__:
             return v.__dict__[n.attr]
         if isinstance(v, slice) and n.attr in ("start", "stop", "step"):
